@@ -312,11 +312,20 @@ struct Gen
     return tangent_theta(r, sample_theta(r, st), tcls, dircls, max_other);
   }
 
-  // tangent coordinates for the algebra laws: 0: {0,+-1}; 1: O(1); 2: translations 1e3; 3: zero; 4: integers
+  // tangent coordinates for the algebra laws: 0: {0,+-1}; 1: O(1); 2: translations 1e3; 3: zero; 4: integers;
+  // 5: tiny (O(1) coordinates scaled by 2^-44 / 2^-19 for float: far below any "is it zero?" threshold of the
+  //    library, far above underflow of the products) - hat, vee, ad and the bracket are (bi)linear, so their
+  //    results on tiny arguments are tiny but exactly as accurate, relatively, as on large ones
   std::vector<double> tangent_c03(Rng & r, int cls) const
   {
     std::vector<double> a(static_cast<std::size_t>(dof), 0.0);
     if (cls == 3) return a;
+    if (cls == 5) {
+      a = tangent_c03(r, 1);
+      for (auto & x : a) x = std::ldexp(x, is_float ? -19 : -44);
+      round_to_scalar(a);
+      return a;
+    }
     for (const auto & f : fields) {
       const int n = f.kind == QUAT ? 3 : f.kind == CPLX ? 1 : f.kind == CONF ? 2 : f.n;
       for (int i = 0; i < n; ++i) {
